@@ -51,7 +51,7 @@ CLAIMED = {
  'C18': ('Machine-checked theorems (Lean 4, reals) about an executable model of the fsr helpers: plane contains its three points; mirror negates exactly the local z coordinate of any frame '
          '(anywhere in space) and is an involution; midpoint has the mean position and its relative rotation squares to the total relative rotation (Rodrigues additivity); lookAt keeps the position and is a '
          'proper rotation with local z at the target (outside the vertical set); distance is the Euclidean metric; closeLinearGap advances by exactly |delta| along the line; IKPath has the requested length, '
-         'end points and constant increments; sphere samplers are unit; angleMod changes an angle by a multiple of 2pi. twistToGoal exponentiates onto the goal for every pair of rigid transforms whose relative rotation angle is 0 or at least the cut-off, half turns included (from exp6(log6 T) = T). closeArcGap, chain/numerical Jacobians and rotationFromVector are decided on the implementation only (sampled). '
+         'end points and constant increments; sphere samplers are unit; angleMod changes an angle by a multiple of 2pi. twistToGoal exponentiates onto the goal for every pair of rigid transforms whose relative rotation angle is 0 or at least the cut-off, half turns included (from exp6(log6 T) = T). closeArcGap advances by exactly |delta| in the library\'s own arc distance, along goal - origin (step rotation zero or outside the cut-off band and below pi). Chain/numerical Jacobians and rotationFromVector are decided on the implementation only (sampled). '
          'Model tied by a differential run; every relation also evaluated on the real functions.',
          'Trusted: Lean kernel, Mathlib, harness generators; optimiser-based helpers not modelled; rounding outside.',
          'Lean 4 proofs on a hand-written model (sympy-found linear_combination certificates) + differential correspondence + on-function falsifier',
@@ -105,8 +105,8 @@ CLAIMED = {
          'Lean 4 induction over the joint chain (exp6 conjugation) + generated-document correspondence + on-arm falsifier',
          'DESIGN.md section 5 C13'),
  'C08': ('Partial proof: machine-checked theorems (Lean 4) about the Newton-Euler recursion modelled over lists of links of any length: superposition (a run with rates (qd, qdd_a+qdd_b), incoming acceleration and tip wrench sums equals the run carrying all velocity-product terms plus a linear zero-velocity run), '
-         'hence torque = M*qdd + c(q,qd) + g(q) + J^T F with the four terms defined as the library defines them (the recursion called with selected zeros), for every chain, state, gravity and tip wrench; positive semi-definiteness of the closed form sum J_i^T G_i J_i; and for the recursion itself the virtual-work identity tau(a).b = sum_i (G_i Vdot_i(a)).Vdot_i(b) of the zero-velocity runs (induction over links), hence the mass matrix the recursion defines is symmetric when every link inertia is and a^T M a >= 0 when every link inertia is positive semi-definite, for chains of any length at every configuration. '
-         'The model is tied to fmr.InverseDynamics by a differential run. Equality of MassMatrix with the closed form, FD inverting ID, agreement of the Arm-level re-implementations, passivity, the gravity gradient and energy conservation are decided on the implementation (finite differences; labelled sampled).',
+         'hence torque = M*qdd + c(q,qd) + g(q) + J^T F with the four terms defined as the library defines them (the recursion called with selected zeros), for every chain, state, gravity and tip wrench; positive semi-definiteness of the closed form sum J_i^T G_i J_i; and for the recursion itself the virtual-work identity tau(a).b = sum_i (G_i Vdot_i(a)).Vdot_i(b) of the zero-velocity runs (induction over links), hence the mass matrix the recursion defines is symmetric when every link inertia is and a^T M a >= 0 when every link inertia is positive semi-definite, for chains of any length at every configuration; the zero-velocity response is additive and homogeneous in the accelerations (so it is the product MassMatrix*x), and forward dynamics inverts inverse dynamics: whatever accelerations the linear solve returns, if they solve M x = tau - c - g - J^T F then InverseDynamics of them is tau (and every x arises this way). '
+         'The model is tied to fmr.InverseDynamics by a differential run. Equality of MassMatrix with the closed form, agreement of the Arm-level re-implementations, passivity, the gravity gradient and energy conservation are decided on the implementation (finite differences; labelled sampled).',
          'Trusted: Lean kernel, Mathlib, chain generators, independent link Jacobians and finite differences in the harness; np.linalg.inv is an oracle.',
          'Lean 4 induction over links (superposition of the Newton-Euler recursion) + differential correspondence + identity falsifier on the MR functions and Arm methods',
          'DESIGN.md section 5 C08'),
